@@ -160,6 +160,83 @@ def sched_sx(e):
     raise Unsupported("scheduler task " + n)
 
 
+# ------------------------------------------------------------------------------------------------ reader (replays)
+def _registry_task(name):
+    from redun.task import get_task_registry
+    t = get_task_registry().get(name)
+    if t is None:
+        raise Unsupported("unknown task " + name)
+    return t
+
+
+_EXC = {c.__name__: c for c in [ValueError, KeyError, LookupError, ZeroDivisionError, ArithmeticError, TypeError, IndexError,
+                                Exception, NotImplementedError, RuntimeError, L.LibError, L.LibSubError]}
+
+
+def from_tree(t):
+    """parsed S-expression (core.unsx) -> real redun expression / value; inverse of to_sx"""
+    if not isinstance(t, list):
+        return t                      # None / bool / int / str
+    h, a = t[0], t[1:]
+    f = from_tree
+    if h == "E":
+        msg = a[1]
+        return _EXC[a[0]](msg) if not msg.startswith("!") else _EXC[a[0]](*eval(msg[1:]))
+    if h == "C":
+        return _EXC[a[0]]
+    if h == "F":
+        return L.PYFUNCS[a[0]]
+    if h is True:                     # (T name): the head atom T parses as True
+        return _registry_task(a[0])
+    if h == "P":
+        return _registry_task(a[0]).partial(*[f(x) for x in a[1]], **{k: f(v) for k, v in a[2]})
+    if h == "V":
+        return ValueExpression(f(a[0]))
+    if h == "L":
+        return [f(x) for x in a]
+    if h == "U":
+        return tuple(f(x) for x in a)
+    if h == "S":
+        return {f(x) for x in a}
+    if h == "NT":
+        return L.P(*[f(x) for x in a[1:]])
+    if h == "DC":
+        return L.D(*[f(x) for x in a[1:]])
+    if h == "D":
+        return {f(k): f(v) for k, v in a}
+    if h == "call":
+        return _registry_task(a[0])(*[f(x) for x in a[1]], **{k: f(v) for k, v in a[2]})
+    if h == "op":
+        return SimpleExpression(a[0], tuple(f(x) for x in a[1:]), {})
+    if h == "cond":
+        return cond(*[f(x) for x in a])
+    if h == "seq":
+        return seq([f(x) for x in a])
+    if h == "catch":
+        flat = []
+        for c, r in a[1:]:
+            flat += [f(c), f(r)]
+        return catch(f(a[0]), *flat)
+    if h == "catchall":
+        return catch_all(f(a[0]), f(a[1]), f(a[2]))
+    if h == "map":
+        return map_(f(a[0]), f(a[1]))
+    if h == "tags":
+        return apply_tags(f(a[0]), f(a[1]), f(a[2]), f(a[3]))
+    if h == "fork":
+        return fork_thread(f(a[0]))
+    if h == "join":
+        from redun.scheduler import join_thread
+        return join_thread(f(a[0]))
+    if h == "subrun":
+        return subrun(f(a[0]), executor="default", new_execution=bool(a[1]))
+    raise Unsupported("cannot rebuild " + repr(h))
+
+
+def from_sx(text):
+    return from_tree(unsx(text)[0])
+
+
 # ------------------------------------------------------------------------------------------------ canonical outcomes
 def canon(tree):
     """order-insensitive canonical form of a parsed S-expression: sets and dict items sorted"""
